@@ -101,6 +101,26 @@ RunJoint(D, u, joint, st, eps, dv) ==
        THEN RunJoint(D, u, Tail(joint), SlotFold(D, u, cs, st, eps, dv).st, eps, dv)
        ELSE [ok |-> FALSE, st |-> st]
 
+\* the state before plan[i] in the sequential run
+RECURSIVE SeqStateAt(_, _, _, _, _, _, _)
+SeqStateAt(D, u, plan, i, st, eps, dv) ==
+  IF i = 1 THEN st ELSE SeqStateAt(D, u, Tail(plan), i - 1, SuccIn(D, u, plan[1], st, eps, dv).st, eps, dv)
+
+\* Under "ConvertNonCommuting": a window plan[i..j] of consecutive actions by distinct agents, all
+\* applicable in the state before plan[i] and without effect clash, that does not commute there.
+\* A greedy packer that ignores preconditions puts such a window into one step; from then on its
+\* state departs from the plan's, and a later action of the plan may be inapplicable in it (the
+\* library then raises).  Only plans with such a window may be refused.
+NonCommutingWindow(D, u, plan, agents, st, eps, dv) ==
+  \E i \in DOMAIN plan : \E j \in (i + 1)..Len(plan) :
+     LET cs == SubSeq(plan, i, j)
+         s == SeqStateAt(D, u, plan, i, st, eps, dv)
+     IN  /\ j - i + 1 <= Len(agents)
+         /\ \A a, b \in DOMAIN cs : a # b => ExecAgent(cs[a], agents) # ExecAgent(cs[b], agents)
+         /\ \A a \in DOMAIN cs : AppIn(D, u, cs[a], s, eps, dv) = "T"
+         /\ NoEffectClash(D, u, cs, s, eps)
+         /\ ~Commute(D, u, cs, s, eps, dv)
+
 \* the calls of one agent, in order of occurrence
 OfAgent(calls, ag, agents) == SelectSeq(calls, LAMBDA c : ExecAgent(c, agents) = ag)
 FlatJoint(joint) == FlattenSeq([i \in DOMAIN joint |-> Active(joint[i])])
